@@ -5,7 +5,7 @@ import ast
 from typing import Dict, List, Optional, Set, Tuple
 
 from ..cfg import cfg_of
-from ..dataflow import expr_closure
+from ..dataflow import param_closure, expr_closure
 from ..guards import guard_facts
 from ..model import (AnalysisError, FuncInfo, Model, calls_in, callee_tail, find_calls, kwarg, names_in, norm, short,
                      walk_body, walk_no_nested)
@@ -428,3 +428,28 @@ def r20b(model: Model, rr: RuleResult):
         rr.ok("USE_TYPO_METRICS (fsSelection bit 7) set")
     else:
         rr.bad(ufi, ufi.node, "OS/2 fsSelection bit 7 (USE_TYPO_METRICS) is not set: typo metrics would not be selected", construct="_ufo: openTypeOS2Selection")
+
+
+@RULES.rule("C20", "R20f", "an intermediate's path depends on every argument of its dest function on every return", floor=2)
+def r20f(model: Model, rr: RuleResult):
+    fi = model.func("nanoemoji", "_dest_for_src")
+    cfg = cfg_of(fi)
+    need = [p for p in fi.params if p in ("out_dir", "input_svg", "suffix")]
+    if len(need) != 3:
+        raise AnalysisError("_dest_for_src: parameters (out_dir, input_svg, suffix) not found")
+    rets = [st for st in walk_body(fi) if isinstance(st, ast.Return) and st.value is not None]
+    for st in rets:
+        names = param_closure(cfg, cfg.node_for(st), st.value)
+        miss = [p for p in need if p not in names]
+        if miss:
+            rr.bad(fi, st, f"_dest_for_src can return a path that does not depend on {miss} (a memo keyed more coarsely than the arguments): picosvg_dest(clipped, svg) "
+                   f"shares one scope for picosvg/ and picosvg/clipped/, so the first clip setting seen for a source decides its path for every configuration",
+                   construct=f"_dest_for_src: {short(st)} independent of {miss}")
+        else:
+            rr.ok(f"_dest_for_src: {short(st, 70)} depends on out_dir, input_svg and suffix")
+    pd = model.func("nanoemoji", "picosvg_dest")
+    t = " ".join(norm(x) for x in pd.body)
+    if "if clipped:" in t and "out_dir / 'clipped'" in t and "_dest_for_src(picosvg_dest, out_dir, input_svg, '.svg')" in t:
+        rr.ok("picosvg_dest: clipped sources go to picosvg/clipped/, unclipped to picosvg/")
+    else:
+        rr.bad(pd, pd.node, "picosvg_dest no longer separates clipped and unclipped outputs by directory", construct="picosvg_dest body")
